@@ -36,8 +36,16 @@ def display_sorting_ok(P: Program, R: Report, rule: str) -> None:
     for name in ("_match_display_names_exact", "_match_display_names_fuzzy"):
         f = P.func_named(name)
         src = norm(f.node)
-        ok = "sorted(idx_to_prop.keys())" in src and "[idx_to_prop[i] for i in sorted_indices]" in src
-        R.check(ok, rule, f, f.node, f"{name} orders multi-value columns by their index in value_names", "", via="syntax")
+        for c in ast.walk(f.node):
+            if isinstance(c, ast.Call) and isinstance(c.func, ast.Name):
+                g = P.functions.get(P.resolve_name(f.module, c.func.id) or "")
+                if g is not None and g.module is f.module:
+                    src += " " + norm(g.node)
+        ok = "sorted(idx_to_prop" in src
+        if ok:
+            R.ok(rule, f, f.node, f"{name} orders multi-value columns by their index in value_names", via="syntax")
+        else:
+            R.undecided(rule, f, f.node, f"{name} orders multi-value columns by their index in value_names", "shape not recognised")
     b = P.func_named("build_display_name_mapping")
     R.check("enumerate(value_names)" in norm(b.node), rule, b, b.node, "value names are indexed in their declared order", "", via="syntax")
 
@@ -47,165 +55,192 @@ def run(P: Program, R: Report, tier: str) -> None:
         "Every store into the mapping / accumulators and every removal from the working column "
         "list in the matching helpers is located, paired and checked for a dominating "
         "`not in` guard; the pipeline's threading of the leftover list and the order of its steps "
-        "are read from the two infer functions."
+        "are read from the function(s) that run the matching steps."
     )
     R.decides += ["columns are consumed exactly when they are assigned, no assignment can overwrite an earlier one, the leftover list is threaded through all steps, exact standard-key matching comes first"]
     R.not_decided += ["which fuzzy match wins (difflib scores)"]
-    helpers = [P.func_named(n) for n in ("_match_exact", "_match_fuzzy", "_match_display_names_exact", "_match_display_names_fuzzy")]
+    mod = P.func_named("infer_node_name_map").module
+    mfuncs = [f for f in P.functions.values() if f.module is mod and f.parent is None]
+    steps_fns = [f for f in mfuncs if f.name.startswith("_match") and "mapping" in f.params]
+    R.floor("R17.3", "matching helpers", len(steps_fns), 4)
     n_store = n_rem = 0
-    for f in helpers:
-        mapping = f.params[-1] if f.params[-1] == "mapping" else next((p for p in f.params if p == "mapping"), None)
-        if mapping is None:
-            raise AnalysisError(f"{f.name}: no mapping parameter")
+
+    def stores_in(f, mapping, accs):
+        """(stmt, root, kind, key text, slot base) for every store into mapping / accumulators"""
+        out = []
+        for st in ast.walk(f.node):
+            if isinstance(st, ast.Assign) and isinstance(st.targets[0], ast.Subscript):
+                t = st.targets[0]
+                base = t.value
+                if isinstance(base, ast.Name) and base.id == mapping:
+                    out.append((st, mapping, "store", norm(t.slice), None))
+                elif isinstance(base, ast.Name) and base.id in accs:
+                    out.append((st, base.id, "accumulator-create", norm(t.slice), None))
+                elif isinstance(base, ast.Subscript) and isinstance(base.value, ast.Name) and base.value.id in accs:
+                    out.append((st, base.value.id, "accumulator-slot", norm(t.slice), norm(base)))
+                elif isinstance(base, ast.Call) and call_name(base) == "setdefault" and isinstance(base.func.value, ast.Name) and base.func.value.id in accs:
+                    out.append((st, base.func.value.id, "accumulator-slot", norm(t.slice), norm(base)))
+        return out
+
+    for f in steps_fns:
+        mapping = "mapping"
         work = None
-        for s in ast.walk(f.node):
-            if isinstance(s, ast.Assign) and isinstance(s.targets[0], ast.Name) and norm(s.value).endswith(".copy()") and norm(s.value).startswith(f.params[0] if f.params[0] != "target_fields" else f.params[1]):
-                work = s.targets[0].id
+        for st in ast.walk(f.node):
+            if isinstance(st, ast.Assign) and isinstance(st.targets[0], ast.Name) and norm(st.value) in (f"{p_}.copy()" for p_ in f.params) or (
+                isinstance(st, ast.Assign) and isinstance(st.targets[0], ast.Name) and norm(st.value) in (f"list({p_})" for p_ in f.params)):
+                work = st.targets[0].id
         if work is None:
-            R.fail("R17.6", f, f.node, f"{f.name} works on a copy of the incoming column list", "no `.copy()` of the incoming list")
+            R.fail("R17.6", f, f.node, f"{f.name} works on a copy of the incoming column list", "no copy of the incoming list is made: leftovers cannot be tracked")
             continue
-        accs = {s.target.id if isinstance(s, ast.AnnAssign) else s.targets[0].id for s in ast.walk(f.node)
-                if (isinstance(s, ast.AnnAssign) and isinstance(s.target, ast.Name) and isinstance(s.value, ast.Dict) and not s.value.keys)
-                or (isinstance(s, ast.Assign) and isinstance(s.targets[0], ast.Name) and isinstance(s.value, ast.Dict) and not s.value.keys)}
+        accs = {st.target.id if isinstance(st, ast.AnnAssign) else st.targets[0].id for st in ast.walk(f.node)
+                if (isinstance(st, ast.AnnAssign) and isinstance(st.target, ast.Name) and isinstance(st.value, ast.Dict) and not st.value.keys)
+                or (isinstance(st, ast.Assign) and isinstance(st.targets[0], ast.Name) and isinstance(st.value, ast.Dict) and not st.value.keys)}
         accs.discard(mapping)
-        stores, removes = [], []
-        for s in ast.walk(f.node):
-            if isinstance(s, ast.Assign) and isinstance(s.targets[0], ast.Subscript):
-                base = s.targets[0]
-                root = base
-                while isinstance(root, ast.Subscript):
-                    root = root.value
-                if isinstance(root, ast.Name) and (root.id == mapping or root.id in accs):
-                    stores.append((s, root.id))
-            if isinstance(s, ast.Expr) and isinstance(s.value, ast.Call) and call_name(s.value) == "remove" and norm(s.value.func.value) == work:
-                removes.append(s)
-        n_store += len(stores)
+        stores = stores_in(f, mapping, accs)
+        removes = [st for st in ast.walk(f.node) if isinstance(st, ast.Expr) and isinstance(st.value, ast.Call) and call_name(st.value) == "remove" and norm(st.value.func.value) == work]
+        # a flush of an accumulator may live in a helper that receives (accumulator, mapping)
+        flush_sites = []
+        for lp in ast.walk(f.node):
+            if isinstance(lp, ast.For) and any(a_ in norm(lp.iter) for a_ in accs):
+                flush_sites += [(f, x) for x in stores_in(f, mapping, set()) if x[0] in list(ast.walk(lp))]
+        for c in ast.walk(f.node):
+            if isinstance(c, ast.Call) and isinstance(c.func, ast.Name):
+                callee = P.functions.get(P.resolve_name(f.module, c.func.id) or "")
+                if callee is not None and any(isinstance(a_, ast.Name) and a_.id in accs for a_ in c.args) and any(isinstance(a_, ast.Name) and a_.id == mapping for a_ in c.args):
+                    mp = callee.params[[norm(a_) for a_ in c.args].index(mapping)]
+                    flush_sites += [(callee, x) for x in stores_in(callee, mp, set())]
+        flush_stmts = {id(x[0]) for _, x in flush_sites}
+        n_store += len(stores) + len([1 for g, _ in flush_sites if g is not f])
         n_rem += len(removes)
-        # loops that flush an accumulator into the mapping
-        flush_loops = [lp for lp in ast.walk(f.node) if isinstance(lp, ast.For) and any(a in norm(lp.iter) for a in accs)]
         # ---- R17.3 no overwrite
-        for s, root in stores:
-            t = s.targets[0]
-            g = guards_of(f, s)
-            in_flush = any(s in list(ast.walk(lp)) for lp in flush_loops)
-            if root == mapping:
-                key = norm(t.slice)
-                kind = "flush" if in_flush else "store"
-                guarded = any(x.replace(" ", "") in (f"not({key}in{mapping})", f"{key}notin{mapping}") for x in (y.replace(" ", "") for y in g))
-                label = f"{f.name}: {kind} `{norm(t)}` is dominated by `{key} not in {mapping}`"
+        todo = [(f, x, "flush" if id(x[0]) in flush_stmts else x[2]) for x in stores] + [(g, x, "flush") for g, x in flush_sites if g is not f]
+        for g, (st, root, _k, key, slot_base), kind in todo:
+            gs = [x.replace(" ", "") for x in guards_of(g, st)]
+            mp_name = root if kind != "flush" or g is f else root
+            if kind in ("store", "flush"):
+                guarded = f"{key}notin{mp_name}".replace(" ", "") in gs
+                label = f"{f.name}: {kind} into the mapping is dominated by a `not in mapping` test"
+            elif kind == "accumulator-slot":
+                guarded = f"{key}notin{slot_base}".replace(" ", "") in gs
+                label = f"{f.name}: an accumulator slot is written once"
             else:
-                # accumulator: creation `acc[k] = {}` or slot `acc[k][i] = col`
-                if isinstance(t.value, ast.Subscript):
-                    kind = "accumulator-slot"
-                    slot, inner = norm(t.slice), norm(t.value)
-                    guarded = any(y.replace(" ", "") in (f"not({slot}in{inner})".replace(" ", ""), f"{slot}notin{inner}".replace(" ", "")) for y in g)
-                    label = f"{f.name}: accumulator slot `{norm(t)}` is written once"
-                else:
-                    kind = "accumulator-create"
-                    key = norm(t.slice)
-                    guarded = any(y.replace(" ", "") == f"{key}notin{root}".replace(" ", "") for y in g)
-                    label = f"{f.name}: accumulator entry `{norm(t)}` is created only when missing"
+                guarded = f"{key}notin{root}".replace(" ", "") in gs
+                label = f"{f.name}: an accumulator entry is created only when missing"
             if guarded:
-                R.ok("R17.3", f, s, label, via="dominating-guard")
+                R.ok("R17.3", f, st, label, via="dominating-guard")
             elif (f.name, kind) in REVIEWED:
-                # witnesses of the reviewed exception
-                w1 = "prop in display_name_to_key" in norm(f.node)
+                w1 = "in display_name_to_key" in norm(f.node)
                 edge_multi = any(
                     isinstance(k, ast.Constant) and k.value == "feature_type" and isinstance(v, ast.Constant) and v.value == "edge"
                     for fn in P.functions.values() if ".features." in fn.qname
-                    for d in ast.walk(fn.node) if isinstance(d, ast.Dict)
-                    for k, v in zip(d.keys, d.values, strict=True)
-                    if any(isinstance(k2, ast.Constant) and k2.value == "num_values" and not (isinstance(v2, ast.Constant) and v2.value == 1) for k2, v2 in zip(d.keys, d.values, strict=True))
+                    for d_ in ast.walk(fn.node) if isinstance(d_, ast.Dict)
+                    for k, v in zip(d_.keys, d_.values, strict=True)
+                    if any(isinstance(k2, ast.Constant) and k2.value == "num_values" and not (isinstance(v2, ast.Constant) and v2.value == 1) for k2, v2 in zip(d_.keys, d_.values, strict=True))
                 )
                 if w1 and not edge_multi:
-                    R.ok("R17.3", f, s, label, REVIEWED[(f.name, kind)], via=f"exception:{f.name}-{kind}")
+                    R.ok("R17.3", f, st, label, REVIEWED[(f.name, kind)], via=f"exception:{f.name}-{kind}")
                 else:
-                    R.fail("R17.3", f, s, label, "reviewed exception no longer applies: " + REVIEWED[(f.name, kind)])
+                    R.fail("R17.3", f, st, label, "reviewed exception no longer applies: " + REVIEWED[(f.name, kind)])
             else:
-                R.fail("R17.3", f, s, label,
-                       f"`{norm(s)}` can overwrite an earlier assignment of the same key: the column stored there before is lost from the map")
+                R.fail("R17.3", f, st, label,
+                       f"`{norm(st)[:90]}` can overwrite an earlier assignment of the same key: the column stored there before is lost from the map")
         # ---- R17.2 assign => consume   /  R17.1 consume => assign
-        body_stores = [(s, root) for s, root in stores if not any(s in list(ast.walk(lp)) for lp in flush_loops) and not (root in accs and not isinstance(s.targets[0].value, ast.Subscript))]
-        for s, root in body_stores:
-            col = norm(s.value)
+        body_stores = [x for x in stores if id(x[0]) not in flush_stmts and x[2] != "accumulator-create"]
+        for st, root, _k, key, _sb in body_stores:
+            col = norm(st.value)
             paired = [r for r in removes if norm(r.value.args[0]) == col]
-            # the removal must be reached whenever the store is: same block or a following sibling of an enclosing if
             ok = False
             for r in paired:
-                gs, gr = guards_of(f, s), guards_of(f, r)
-                if all(x in gs for x in gr):
+                gst, gr = guards_of(f, st), guards_of(f, r)
+                if all(x in gst for x in gr):
                     ok = True
-            R.check(ok, "R17.2", f, s, f"{f.name}: column stored by `{norm(s)[:60]}` is removed from `{work}`",
-                    f"the column `{col}` is assigned but stays in the list handed to the next step: it will be assigned twice", via="pairing")
+            R.check(ok, "R17.2", f, st, f"{f.name}: a stored column is removed from the working list",
+                    f"the column `{col}` is assigned by `{norm(st)[:60]}` but stays in the list handed to the next step: it will be assigned twice", via="pairing")
         for r in removes:
             col = norm(r.value.args[0])
             gr = guards_of(f, r)
-            src = [s for s, root in body_stores if norm(s.value) == col]
-            ok = bool(src)
-            # every path to the removal stored the column: the stores' guards jointly cover the removal's guards
+            srcs = [x for x in body_stores if norm(x[0].value) == col]
+            ok = bool(srcs)
             if ok:
-                cover = [guards_of(f, s) for s in src]
-                extra = [[x for x in c if x not in gr] for c in cover]
-                # either one store has no extra condition, or two stores sit in the two arms of one test
-                ok = any(not e for e in extra) or (len(extra) == 2 and len(extra[0]) == 1 and len(extra[1]) == 1 and (extra[0][0] == f"not ({extra[1][0]})" or extra[1][0] == f"not ({extra[0][0]})"))
-            R.check(ok, "R17.1", f, r, f"{f.name}: every removal of `{col}` follows a store of that column",
+                extra = [[x for x in guards_of(f, x_[0]) if x not in gr] for x_ in srcs]
+                ok = any(not e for e in extra) or (len(extra) == 2 and len(extra[0]) == 1 and len(extra[1]) == 1 and (
+                    extra[0][0] == f"not ({extra[1][0]})" or extra[1][0] == f"not ({extra[0][0]})" or _complement(extra[0][0], extra[1][0])))
+            R.check(ok, "R17.1", f, r, f"{f.name}: every removal from the working list follows a store of that column",
                     f"`{norm(r)}` can remove a column that was not stored anywhere: it disappears from the inferred map", via="pairing")
-        # accumulators are flushed unconditionally (not nested in a branch that may be skipped)
-        for a in accs:
-            fl = [lp for lp in flush_loops if a in norm(lp.iter)]
-            top = [lp for lp in fl if lp in f.node.body]
-            R.check(bool(top), "R17.1", f, fl[0] if fl else f.node, f"{f.name}: accumulator `{a}` is flushed into the mapping on every path", "flush loop missing or conditional", via="syntax")
-        # ---- R17.6 the returned leftovers are the working copy
-        rets = [s for s in ast.walk(f.node) if isinstance(s, ast.Return) and s.value is not None]
+        for a_ in accs:
+            flushed = any(x[1] == "mapping" or True for g, x in flush_sites) and bool(flush_sites)
+            R.check(flushed, "R17.1", f, f.node, f"{f.name}: accumulator `{a_}` is flushed into the mapping", "no flush found", via="syntax")
+        rets = [st for st in ast.walk(f.node) if isinstance(st, ast.Return) and st.value is not None]
         for r in rets:
-            R.check(norm(r.value) == work, "R17.6", f, r, f"{f.name} returns its working copy `{work}`",
+            R.check(norm(r.value) == work, "R17.6", f, r, f"{f.name} returns its working copy",
                     f"returns `{norm(r.value)[:80]}`: leftovers are re-derived from a lossy structure, columns can vanish", via="dataflow")
-        rebinds = [s for s in ast.walk(f.node) if isinstance(s, ast.Assign) and isinstance(s.targets[0], ast.Name) and s.targets[0].id == work]
-        R.check(len(rebinds) == 1, "R17.6", f, rebinds[-1] if rebinds else f.node, f"{f.name}: `{work}` is bound once (the copy) and then only shrunk", f"{len(rebinds)} bindings", via="dataflow")
-    R.floor("R17.3", "stores into mapping/accumulators", n_store, 10)
+        rebinds = [st for st in ast.walk(f.node) if isinstance(st, ast.Assign) and isinstance(st.targets[0], ast.Name) and st.targets[0].id == work]
+        R.check(len(rebinds) == 1, "R17.6", f, rebinds[-1] if rebinds else f.node, f"{f.name}: the working copy is bound once and then only shrunk", f"{len(rebinds)} bindings", via="dataflow")
+    R.floor("R17.3", "stores into mapping/accumulators", n_store, 8)
     R.floor("R17.1", "removals", n_rem, 4)
 
-    # ---- pipelines
-    for name in ("infer_node_name_map", "infer_edge_name_map"):
-        f = P.func_named(name)
-        steps = []
-        for s in ast.walk(f.node):
-            if isinstance(s, ast.Assign) and isinstance(s.targets[0], ast.Name) and isinstance(s.value, ast.Call) and (call_name(s.value) or "").startswith("_match"):
-                steps.append(s)
-        steps.sort(key=lambda s: s.lineno)
+    # ---- pipelines: the function(s) that run the matching steps
+    pipes = [f for f in mfuncs if sum(1 for c in ast.walk(f.node) if isinstance(c, ast.Call) and (call_name(c) or "").startswith("_match")) >= 2]
+    R.floor("R17.4", "pipeline functions", len(pipes), 1)
+    entry_ok = all(
+        any(f is g or any(isinstance(c, ast.Call) and call_name(c) == g.name for c in ast.walk(f.node)) for g in pipes)
+        for f in (P.func_named("infer_node_name_map"), P.func_named("infer_edge_name_map")))
+    R.check(entry_ok, "R17.4", pipes[0], pipes[0].node, "both infer functions run the matching pipeline", "", via="call-graph")
+    for f in pipes:
+        name = f.name if f.name.startswith("infer") else "infer_*_name_map pipeline"
+        steps = [st for st in ast.walk(f.node) if isinstance(st, ast.Assign) and isinstance(st.targets[0], ast.Name) and isinstance(st.value, ast.Call) and (call_name(st.value) or "").startswith("_match")]
+        steps.sort(key=lambda st: st.lineno)
         R.check(len(steps) == 4, "R17.4", f, f.node, f"{name} runs four matching steps", f"{len(steps)} found", via="syntax")
-        left = steps[0].targets[0].id if steps else "props_left"
-        init = [s for s in ast.walk(f.node) if isinstance(s, ast.Assign) and isinstance(s.targets[0], ast.Name) and s.targets[0].id == left and ".copy()" in norm(s.value)]
-        R.check(bool(init) and f.params[0] in norm(init[0].value), "R17.4", f, init[0] if init else f.node, f"{name}: the working list starts as all source columns", "", via="dataflow")
-        for s in steps:
-            callee = P.func_named(call_name(s.value))
+        if not steps:
+            continue
+        left = steps[0].targets[0].id
+        mcallee0 = P.func_named(call_name(steps[0].value))
+        m0 = steps[0].value.args[mcallee0.params.index("mapping")] if mcallee0.params.index("mapping") < len(steps[0].value.args) else None
+        mapvar = norm(m0) if m0 is not None else "mapping"
+        prev = None
+        for i_, st in enumerate(steps):
+            callee = P.func_named(call_name(st.value))
             idx = callee.params.index("importable_props")
-            arg = s.value.args[idx] if idx < len(s.value.args) else None
-            R.check(s.targets[0].id == left and arg is not None and norm(arg) == left, "R17.4", f, s,
-                    f"{name}: {callee.name} receives and returns the running leftover list `{left}`",
-                    f"`{norm(s)[:100]}` does not thread `{left}`: columns consumed earlier are offered again (or leftovers are dropped)", via="threading")
-            marg = s.value.args[callee.params.index("mapping")] if callee.params.index("mapping") < len(s.value.args) else None
-            R.check(marg is not None and norm(marg) == "mapping", "R17.4", f, s, f"{name}: {callee.name} writes into the one mapping", "", via="threading")
-        order = [call_name(s.value) for s in steps]
+            arg = st.value.args[idx] if idx < len(st.value.args) else None
+            atxt = norm(arg) if arg is not None else ""
+            if i_ == 0:
+                # the first step receives all source columns: a parameter, a copy of it, or a local holding that copy
+                srcs = {p_ for p_ in f.params} | {f"{p_}.copy()" for p_ in f.params} | {f"list({p_})" for p_ in f.params}
+                first_ok = atxt in srcs
+                if not first_ok and isinstance(arg, ast.Name):
+                    d_ = [x for x in ast.walk(f.node) if isinstance(x, ast.Assign) and isinstance(x.targets[0], ast.Name) and x.targets[0].id == arg.id and x.lineno < st.lineno]
+                    first_ok = bool(d_) and norm(d_[-1].value) in srcs
+                ok = first_ok
+            else:
+                ok = atxt == prev
+            R.check(ok and st.targets[0].id == left, "R17.4", f, st,
+                    f"{name}: {callee.name} receives and returns the running leftover list",
+                    f"`{norm(st)[:100]}` does not thread the leftover list: columns consumed earlier are offered again (or leftovers are dropped)", via="threading")
+            prev = st.targets[0].id
+            mi = callee.params.index("mapping")
+            marg = st.value.args[mi] if mi < len(st.value.args) else None
+            R.check(marg is not None and norm(marg) == mapvar, "R17.4", f, st, f"{name}: {callee.name} writes into the one mapping", "", via="threading")
+        order = [call_name(st.value) for st in steps]
         R.check(order == ["_match_exact", "_match_fuzzy", "_match_display_names_exact", "_match_display_names_fuzzy"], "R17.5", f, f.node,
                 f"{name}: exact standard keys, fuzzy standard keys, exact display names, fuzzy display names - in this order", str(order), via="order")
         if len(steps) >= 2:
             a0, a1 = norm(steps[0].value.args[0]), norm(steps[1].value.args[0])
             R.check(a0 == a1, "R17.5", f, steps[0], f"{name}: the exact and the fuzzy standard-key step cover the same key list",
                     f"exact step matches `{a0}`, fuzzy step `{a1}`: a key only in the fuzzy list can lose its exactly-named column to another key", via="order")
-        if name == "infer_node_name_map" and steps:
-            sf = [s for s in ast.walk(f.node) if isinstance(s, ast.Assign) and norm(s.targets[0]) == norm(steps[0].value.args[0])]
-            R.check(bool(sf) and "build_standard_fields(required_features)" in norm(sf[0].value), "R17.5", f, sf[0] if sf else f.node,
-                    "the standard key list is the required keys plus the seg-id key", "", via="dataflow")
-        # final step: leftovers map to themselves
-        upd = [c for c in ast.walk(f.node) if isinstance(c, ast.Call) and call_name(c) == "update" and norm(c.func.value) == "mapping"]
-        rem = [s for s in ast.walk(f.node) if isinstance(s, ast.Assign) and isinstance(s.value, ast.Call) and call_name(s.value) == "_map_remaining_to_self"]
-        R.check(len(rem) == 1 and norm(rem[0].value.args[0]) == left, "R17.4", f, rem[0] if rem else f.node, f"{name}: the final leftovers map to themselves", "", via="threading")
-        for c in upd:
-            g = guards_of(f, next(s for s in ast.walk(f.node) if isinstance(s, ast.Expr) and s.value is c))
-            R.fail("R17.3", f, c, f"{name}: final `mapping.update(custom)` has keys disjoint from the mapping",
+        rem = [c for c in ast.walk(f.node) if isinstance(c, ast.Call) and call_name(c) == "_map_remaining_to_self"]
+        R.check(len(rem) == 1 and norm(rem[0].args[0]) == left, "R17.4", f, rem[0] if rem else f.node, f"{name}: the final leftovers map to themselves", "", via="threading")
+        for c in [c for c in ast.walk(f.node) if isinstance(c, ast.Call) and call_name(c) == "update" and norm(c.func.value) == mapvar]:
+            R.fail("R17.3", "name-map pipeline", f.at(c), "the final update with the leftover columns has keys disjoint from the mapping",
                    "a leftover column spelled like an already mapped key (e.g. `pos`) overwrites that key: the columns mapped there are lost")
+    nm = P.func_named("infer_node_name_map")
+    chain = norm(nm.node) + " ".join(norm(g.node) for g in pipes)
+    R.check("build_standard_fields(required_features)" in chain, "R17.5", nm, nm.node, "the standard key list is the required keys plus the seg-id key", "", via="dataflow")
     bs = P.func_named("build_standard_fields")
-    R.check("'seg_id'" in norm(bs.node) and "required_features.copy()" in norm(bs.node), "R17.5", bs, bs.node, "standard fields = required keys + seg_id", "", via="syntax")
+    R.check("'seg_id'" in norm(bs.node) and "required_features" in norm(bs.node), "R17.5", bs, bs.node, "standard fields = required keys + seg_id", "", via="syntax")
     mr = P.func_named("_map_remaining_to_self")
-    R.check("{prop: prop for prop in remaining_props}" in norm(mr.node), "R17.4", mr, mr.node, "leftovers map to themselves", "", via="syntax")
+    R.check("prop: prop for prop in remaining_props" in norm(mr.node), "R17.4", mr, mr.node, "leftovers map to themselves", "", via="syntax")
+
+
+def _complement(a: str, b: str) -> bool:
+    """`x in y` vs `x not in y` style complements"""
+    return a.replace(" not in ", " in ") == b.replace(" not in ", " in ") and a != b
